@@ -236,6 +236,61 @@ impl NavigationState {
     }
 }
 
+#[cfg(mathcat_verif)]
+/// Verification hook: serialize the (thread-local) navigation state. Ids never contain '\u{1}' or '\u{2}'.
+pub fn verif_nav_state() -> String {
+    return NAVIGATION_STATE.with(|nav_state| {
+        let nav_state = nav_state.borrow();
+        let positions = nav_state.position_stack.iter().map(|p| format!("{}\u{2}{}", p.current_node, p.current_node_offset)).collect::<Vec<String>>().join("\u{1}");
+        let commands = nav_state.command_stack.join("\u{1}");
+        let markers = nav_state.place_markers.iter().map(|p| format!("{}\u{2}{}", p.current_node, p.current_node_offset)).collect::<Vec<String>>().join("\u{1}");
+        return format!("{}\n{}\n{}\n{}\n{}", positions, commands, markers, nav_state.mode, nav_state.speak_overview);
+    });
+}
+
+#[cfg(mathcat_verif)]
+/// Verification hook: restore a state written by `verif_nav_state` (commands must be known navigation commands or "None").
+pub fn verif_set_nav_state(state: &str) -> bool {
+    fn parse_position(str: &str) -> Option<NavigationPosition> {
+        let mut parts = str.split('\u{2}');
+        let current_node = parts.next()?.to_string();
+        let current_node_offset = parts.next()?.parse::<usize>().ok()?;
+        return Some( NavigationPosition{ current_node, current_node_offset } );
+    }
+    let lines = state.split('\n').collect::<Vec<&str>>();
+    if lines.len() != 5 {
+        return false;
+    }
+    let mut position_stack = Vec::new();
+    if !lines[0].is_empty() {
+        for str in lines[0].split('\u{1}') {
+            match parse_position(str) { Some(p) => position_stack.push(p), None => return false }
+        }
+    }
+    let mut command_stack: Vec<&'static str> = Vec::new();
+    if !lines[1].is_empty() {
+        for str in lines[1].split('\u{1}') {
+            match NAV_COMMANDS.get_key(str) {
+                Some(command) => command_stack.push(command),
+                None => if str == "None" { command_stack.push("None") } else { return false },
+            }
+        }
+    }
+    let markers = lines[2].split('\u{1}').map(parse_position).collect::<Option<Vec<NavigationPosition>>>();
+    let markers = match markers { Some(m) if m.len() == MAX_PLACE_MARKERS => m, _ => return false };
+    return NAVIGATION_STATE.with(|nav_state| {
+        let mut nav_state = nav_state.borrow_mut();
+        nav_state.position_stack = position_stack;
+        nav_state.command_stack = command_stack;
+        for (i, marker) in markers.into_iter().enumerate() {
+            nav_state.place_markers[i] = marker;
+        }
+        nav_state.mode = lines[3].to_string();
+        nav_state.speak_overview = lines[4] == "true";
+        return true;
+    });
+}
+
 // convert the last digit of a Placemarker command to an integer
 fn convert_last_char_to_number(str: &str) -> usize {
     let last_char = str.as_bytes()[str.len()-1];
